@@ -509,15 +509,15 @@ func e6RelistCase(seed uint64, n int) Case {
 func init() {
 	register("E6", func(tier string, seed uint64) []Case {
 		var cases []Case
-		n := tierPick(tier, 240, 20000)
+		n := tierPick(tier, 240, 40000)
 		for i := 0; i < n; i++ {
 			cases = append(cases, e6Case(seed, i, i%8 == 7))
 		}
-		m := tierPick(tier, 80, 6000)
+		m := tierPick(tier, 80, 12000)
 		for i := 0; i < m; i++ {
 			cases = append(cases, e6CtlCase(seed, i))
 		}
-		for i := 0; i < tierPick(tier, 60, 3000); i++ {
+		for i := 0; i < tierPick(tier, 60, 8000); i++ {
 			cases = append(cases, e6RelistCase(seed, i))
 		}
 		return cases
